@@ -144,10 +144,16 @@ func VH21a_listener() {
 		verif.Assert(p.Address() == url, "C13/tcp/pipe-address")
 		verif.Assert(p.Listener() != nil && p.Dialer() == nil, "C13/tcp/pipe-endpoint")
 		if v, err := p.GetOption(mangos.OptionRemoteAddr); err == nil {
-			verif.Assert(v != nil, "C13/tcp/remote-addr")
+			verif.Assert(v == interface{}(c2.RemoteAddr()), "C13/tcp/remote-addr")
 		} else {
 			verif.Fail("C13/tcp/remote-addr-option-missing")
 		}
+		if v, err := p.GetOption(mangos.OptionLocalAddr); err == nil {
+			verif.Assert(v == interface{}(c2.LocalAddr()), "C13/tcp/local-addr")
+		} else {
+			verif.Fail("C13/tcp/local-addr-option-missing")
+		}
+		verif.Assert(p.ID() != 0 && p.ID()&0x80000000 == 0, "C13/tcp/pipe-id-not-a-non-zero-31-bit-value")
 		if isTLS() {
 			// read-only pipe option: the TLS state of this very connection
 			if v, err := p.GetOption(mangos.OptionTLSConnState); err == nil {
@@ -195,9 +201,11 @@ func VH21b_dialer() {
 	vnet.Install()
 	sock := vp.New("bus")
 	attached := 0
+	var dialed []mangos.Pipe
 	sock.SetPipeEventHook(func(ev mangos.PipeEvent, p mangos.Pipe) {
 		if ev == mangos.PipeEventAttached {
 			attached++
+			dialed = append(dialed, p)
 		}
 	})
 	self := sock.Info().Peer
@@ -249,8 +257,30 @@ func VH21b_dialer() {
 		verif.Assert(n >= 2, lab+"/dialer-stopped-redialling")
 		verif.Reach("redialled-after-loss")
 	}
-	for _, c := range conns {
-		_ = c
+	// a dialed pipe describes its connection and the endpoint that made it (C13)
+	if len(dialed) > 0 {
+		p := dialed[len(dialed)-1]
+		verif.Assert(p.Address() == durl, "C13/tcp/dialed-pipe-address")
+		verif.Assert(p.Dialer() != nil && p.Listener() == nil, "C13/tcp/dialed-pipe-endpoint")
+		verif.Assert(p.ID() != 0 && p.ID()&0x80000000 == 0, "C13/tcp/pipe-id-not-a-non-zero-31-bit-value")
+		var last *vnet.Conn
+		for _, c := range conns {
+			if !c.Closed {
+				last = c
+			}
+		}
+		if last != nil {
+			la, e1 := p.GetOption(mangos.OptionLocalAddr)
+			ra, e2 := p.GetOption(mangos.OptionRemoteAddr)
+			verif.Assert(e1 == nil && e2 == nil, "C13/tcp/address-options-missing")
+			if e1 == nil && e2 == nil {
+				verif.Assert(la == interface{}(last.LocalAddr()) && ra == interface{}(last.RemoteAddr()), "C13/tcp/address-options-do-not-describe-the-connection")
+			}
+		}
+		if _, e := p.GetOption("NO-SUCH-PIPE-OPTION"); e == nil {
+			verif.Fail("C13/tcp/unknown-pipe-option-accepted")
+		}
+		verif.Reach("dialed-pipe-described")
 	}
 	sock.Close()
 	verif.Quiesce()
